@@ -12,7 +12,10 @@ Protocol (one op per line):
   add <i> <j> <t> | remove <i> <j> | remove_to <i> | remove_bonds | merge | concat | concat3
   offset <k> | rm_arom | rm_order
   getitem mask|smask|blist <0101|_>  |  getitem arr|list <ints|_>  |  getitem slice <a|-> <b|-> <c|->
-  optional trailing ` @i8|i16|i32|i64|ip|u8|u16|u32|u64` on add/remove/remove_to/get_bonds/getitem int/contains/getitem arr:
+  add2 <i> <j>               add_bond with the default bond type
+  optional trailing ` @i8|i16|i32|i64|ip|u8|u16|u32|u64` on add/remove/remove_to/get_bonds/getitem int/contains/getitem arr
+  and ` @<dtype>|be|ro|sr|sc|F|kw|none` on new/aux/new2 (array dtype / byte order / read-only / strided / Fortran / keyword call /
+  default argument), ` @ro|sr|be` on getitem arr, ` @ro` on getitem mask:
   the indices are passed as NumPy integer scalars / an index array of that dtype
   get_bonds <i> | getitem int <i> | all_bonds | adj | types | graph | contains <i> <j> | eq | count
 """
@@ -36,7 +39,7 @@ TRUSTED = ["numpy np.sort/np.delete/np.append/np.cumsum/fancy indexing modelled 
 ASSUMPTIONS = ["atom counts stay below 2^31 (uint32/int32 arithmetic of offset_indices/concatenate is modelled without wrap; "
                "only _to_positive_index is modelled at C width)",
                "memory safety is argued only through the bounds invariants proved on the model (cachedMax, index < n)"]
-LEVEL_TEXT = ("proof (Lean 4, all inputs, 36 theorems): every operation keeps both lists canonical and the cached maximum a "
+LEVEL_TEXT = ("proof (Lean 4, all inputs, 38 theorems): every operation keeps both lists canonical and the cached maximum a "
               "bound of every degree (so get_bonds/get_all_bonds stay inside their buffers); every operation refines a "
               "reference map from sorted pairs to one type (first wins at construction, new type on update, argument on "
               "merge, disjoint union with offset, __getitem__ = relabelling by the inverse index, mask branch = index "
